@@ -188,4 +188,4 @@ def run_case(spec):
             if f is not None and f.get("fn") is None and (p.name, pop.name) not in targeted:
                 if not np.array_equal(p.vals, r0.model.get_pop(pop.name).get_par(p.name).vals):
                     vs.append(V("untargeted-parameter-changed", f"{spec['c13']}: data parameter {p.name} in {pop.name} differs from the run without programs although no program targets it", None))
-    return dict(states=T, transitions=T - 1, nontrivial=nact > 0, violations=vs[:6], counters=dict(active_checks=nact, **{"unit_" + spec["c13"]["unit"]: 1}))
+    return dict(states=T, transitions=T - 1, traces=1, nontrivial=nact > 0, violations=vs[:6], counters=dict(active_checks=nact, **{"unit_" + spec["c13"]["unit"]: 1}))
